@@ -176,9 +176,13 @@ def finalize(rep, cases, results, tier, seed):
         # With three or more rungs the peak must keep growing over the last two steps to be called growth.
         # how many of the workers hold a file pair at the very moment of the peak varies from run to run: the slack grows with them
         slack = 16 + 2 * lo["workers"]
-        growing = len(runs) >= 2 and hi["peak"] > lo["peak"] + slack
+        # ... and a small tree may not fill the queue (a deep chain feeds the dispatcher slowly): growth has to be in proportion to
+        # the tree, not a step of a few hundred descriptors from "queue not yet full" to "queue full"
+        def grew(a, c):
+            return c["peak"] > a["peak"] + slack and c["peak"] - a["peak"] >= min(0.4 * (c["n"] - a["n"]), 500)
+        growing = len(runs) >= 2 and grew(lo, hi)
         if growing and len(runs) >= 3:
-            growing = runs[-1]["peak"] > runs[-2]["peak"] + slack and runs[-2]["peak"] > runs[-3]["peak"] + slack
+            growing = grew(runs[-2], runs[-1]) and grew(runs[-3], runs[-2])
         if growing and lo["sname"].startswith("slow-workers"):
             rep.violation("%s:peak-grows-with-files" % lo["driver"],
                           "peak open descriptors grows with the number of files: %s (driver %s, workers %d, sched %s)"
